@@ -1,17 +1,24 @@
 import Bip39V.Lemmas.Nfkd
 /-! The normaliser `norm.NFKD.String` of golang.org/x/text as a parameter with two recorded
-assumptions.  x/text produces *stream-safe* text: it agrees with UAX #15 NFKD exactly when the NFKD
+facts.  x/text produces *stream-safe* text: it agrees with UAX #15 NFKD exactly when the NFKD
 form has no run of more than 30 "K-items" (non-zero combining class, or one of the 72 starters
-x/text treats as combining backwards); otherwise it inserts U+034F after 30 of them, so its output
-contains 30 consecutive K-items.  Both assumptions are exercised by the harness (all scalar values,
-random sequences, the 25…35 boundary). -/
+x/text treats as combining backwards); otherwise it inserts U+034F wherever its counter of pending
+non-starters would pass 30.  Because a single rune can contribute up to three leading K-items, the
+insertion can come after as few as 28 of them (`a` + 29×U+0301 + U+0344 gives 29, U+034F, 2 —
+observed on x/text; an earlier version of this file claimed 30, which is false for that input), so
+what is recorded is a run of **28** consecutive K-items in the output.
+
+Both facts are *theorems* about the executable model `Unicode.xnfkd` of x/text's algorithm
+(`Lemmas/XText.lean`, instance `xtext` in `Props/XText.lean`); the model is compared with the real
+`norm.NFKD.String` by the harness (op `xnfkd`).  The structure is kept so that the property theorems
+say exactly which two facts about the normaliser they use. -/
 namespace Bip39V
 open Unicode
 
 structure Normaliser where
   X : Str → Str
   agrees : ∀ s, streamSafe s = true → X s = nfkd s
-  overflow : ∀ s, streamSafe s = false → ∃ a r b, X s = a ++ r ++ b ∧ r.length = 30 ∧ ∀ c ∈ r, kItem c = true
+  overflow : ∀ s, streamSafe s = false → ∃ a r b, X s = a ++ r ++ b ∧ r.length = 28 ∧ ∀ c ∈ r, kItem c = true
 
 /-- stream-safety depends only on the NFKD form -/
 theorem streamSafe_congr (a b : Str) (h : nfkd a = nfkd b) : streamSafe a = streamSafe b := by
@@ -19,13 +26,13 @@ theorem streamSafe_congr (a b : Str) (h : nfkd a = nfkd b) : streamSafe a = stre
 
 
 /-- the two assumptions are consistent: here is a normaliser satisfying both (UAX #15 NFKD on the
-stream-safe class, thirty combining acute accents elsewhere), so no theorem about a `Normaliser` is
+stream-safe class, twenty-eight combining acute accents elsewhere), so no theorem about a `Normaliser` is
 vacuous -/
 def exampleNormaliser : Normaliser where
-  X s := if streamSafe s = true then nfkd s else List.replicate 30 0x301
+  X s := if streamSafe s = true then nfkd s else List.replicate 28 0x301
   agrees s h := by simp [h]
   overflow s h := by
-    refine ⟨[], List.replicate 30 0x301, [], by simp [h], by simp, ?_⟩
+    refine ⟨[], List.replicate 28 0x301, [], by simp [h], by simp, ?_⟩
     intro c hc
     have : c = 0x301 := List.eq_of_mem_replicate hc
     subst this
